@@ -16,6 +16,8 @@ package scanner
 //@ pred isEnd(t int) = t == 1 || t == 3 || t == 5 || t == 7 || t == 9 || t == 13
 //@ pred isSingle(t int) = t == 10 || t == 11
 //@ pred validEv(t int) = 0 <= t && t <= 13
+// only annotation and text lexemes may be empty (end == begin - 1)
+//@ pred slack(t int) = (t == 5 || t == 9) ? 1 : 0
 
 //@ pred StepLink(s *Scanner) = (open(s.step) == 1 ==> s.curIndex - s.openBegin == len(spell(s.step))) && open(s.step) == s.open && s.curIndex - s.lastEnd >= back(s.step) && (strict(s.step) == 1 ==> s.openBegin < s.curIndex)
 //@ pred StackWF(s *Scanner) = s.step != nil && need(s.step) <= len(s.stepStack) && (kw(s.step) == 1 ==> s.lastEnd >= 0)
@@ -25,8 +27,8 @@ package scanner
 //@     && (len(s.stack) == 1 ==> isBegin(s.stack[0].type_))
 //@     && (forall i :: 0 <= i && i < len(s.finds) ==> validEv(s.finds[i].type_))
 //@     && (forall i :: 0 <= i && i < len(s.finds) && isEnd(s.finds[i].type_) ==> s.finds[i].position < s.dataSize
-//@            && (i > 0 ==> s.finds[i-1].type_ + 1 == s.finds[i].type_ && s.finds[i-1].position <= s.finds[i].position + 1)
-//@            && (i == 0 ==> len(s.stack) == 1 && s.stack[0].type_ + 1 == s.finds[0].type_ && s.stack[0].position <= s.finds[0].position + 1))
+//@            && (i > 0 ==> s.finds[i-1].type_ + 1 == s.finds[i].type_ && s.finds[i-1].position <= s.finds[i].position + slack(s.finds[i].type_))
+//@            && (i == 0 ==> len(s.stack) == 1 && s.stack[0].type_ + 1 == s.finds[0].type_ && s.stack[0].position <= s.finds[0].position + slack(s.finds[0].type_)))
 //@     && (forall i :: 0 <= i && i < len(s.finds) && !isEnd(s.finds[i].type_) ==> (i > 0 ==> !isBegin(s.finds[i-1].type_)) && (i == 0 ==> len(s.stack) == 0))
 //@     && (forall i :: 0 <= i && i < len(s.finds) && isSingle(s.finds[i].type_) ==> s.finds[i].position < s.dataSize)
 //@     && (len(s.finds) > 0 && isBegin(s.finds[len(s.finds)-1].type_) ==> s.open == s.finds[len(s.finds)-1].type_ + 1 && s.openBegin == s.finds[len(s.finds)-1].position)
@@ -98,7 +100,7 @@ package scanner
 //@   tag C01 C14
 //@   requires s != nil
 //@   requires [C14] isBegin(t) ==> s.open == 0 && i > s.lastEnd && i <= s.dataSize
-//@   requires [C14] isEnd(t) ==> s.open == t && s.openBegin <= i + 1 && i < s.dataSize
+//@   requires [C14] isEnd(t) ==> s.open == t && s.openBegin <= i + slack(t) && i < s.dataSize
 //@   requires [C14] isSingle(t) ==> s.open == 0 && i > s.lastEnd && i < s.dataSize
 //@   requires [C14] validEv(t)
 //@   modifies s.finds, s.open, s.openBegin, s.lastEnd
@@ -111,7 +113,7 @@ package scanner
 //@   tag C01 C14
 //@   requires s != nil
 //@   requires [C14] isBegin(t) ==> s.open == 0 && s.curIndex > s.lastEnd && s.curIndex <= s.dataSize
-//@   requires [C14] isEnd(t) ==> s.open == t && s.openBegin <= s.curIndex + 1 && s.curIndex < s.dataSize
+//@   requires [C14] isEnd(t) ==> s.open == t && s.openBegin <= s.curIndex + slack(t) && s.curIndex < s.dataSize
 //@   requires [C14] isSingle(t) ==> s.open == 0 && s.curIndex > s.lastEnd && s.curIndex < s.dataSize
 //@   requires [C14] validEv(t)
 //@   modifies s.finds, s.open, s.openBegin, s.lastEnd
@@ -255,7 +257,7 @@ package scanner
 // back(f): bytes guaranteed between the last lexeme end and the byte f is run on (stateAnnotationSign2 rewinds by two)
 //@ table back(stepFunc) int : default=1, stateAnnotationSign2=2
 // strict(f) == 1: f runs only on bytes strictly after the beginning of the open lexeme
-//@ table strict(stepFunc) int : default=0, stateMultilineAnnotation=1
+//@ table strict(stepFunc) int : default=0, stateMultilineAnnotation=1, stateParameterWoQuoted=1, stateSchemaClosed=1, stateEnumBodyClose=1
 
 // alias(f) = g: f hands its byte to g by a direct call without making g the current step
 //@ table alias(stepFunc) int : default=0, stateRoot=stateExpectKeyword, stateCommentStarted=stateSingleComment, stateCommentDouble=stateSingleComment
@@ -274,7 +276,7 @@ package scanner
 //@   modifies s.stack
 //@   ensures ret1 == nil
 //@   ensures isBegin(lexEvent.type_) ==> ret0 == nil && len(s.stack) == 1 && s.stack[0] == lexEvent
-//@   ensures isEnd(lexEvent.type_) ==> ret0 != nil && len(s.stack) == 0 && ret0.begin == old(s.stack[0].position) && ret0.end == lexEvent.position
+//@   ensures isEnd(lexEvent.type_) ==> fresh(ret0) && len(s.stack) == 0 && ret0.begin == old(s.stack[0].position) && ret0.end == lexEvent.position
 //@             && ret0.file == s.file && ret0.type_ == lexTypeOf(lexEvent.type_)
 //@   ensures isSingle(lexEvent.type_) ==> ret0 != nil && len(s.stack) == old(len(s.stack)) && ret0.begin == lexEvent.position && ret0.end == lexEvent.position
 //@             && ret0.file == s.file && ret0.type_ == lexTypeOf(lexEvent.type_)
@@ -288,7 +290,7 @@ package scanner
 //@   requires NextInv(s)
 //@   modifies s.step, s.stepStack, s.finds, s.stack, s.curIndex, s.open, s.openBegin, s.lastEnd, s.lastDirectiveParameters
 //@   ensures ret1 == nil ==> NextInv(s)
-//@   ensures [C14] ret0 != nil ==> ret1 == nil && LexemeWF(ret0) && ret0.file == s.file
+//@   ensures [C14] ret0 != nil ==> ret1 == nil && LexemeWF(ret0) && ret0.file == s.file && (ret0.type_ != 2 && ret0.type_ != 5 ==> ret0.begin <= ret0.end)
 //@   ensures [C02] ret1 != nil ==> ret0 == nil && ret1.file == s.file && ret1.index <= s.dataSize
 //@   loop 1 invariant NextInv(s)
 //@   loop 1 frame s
@@ -366,3 +368,34 @@ package scanner
 //@   loop 1 invariant forall k :: 0 <= k && k <= rangeindex ==> d.stack[k].file == ii[k].scanner.file && d.stack[k].at == ii[k].at
 //@   loop 1 decreases rangelen - rangeindex
 //@   loop 1 frame nothing
+
+//@ globalinv errRecursion : !isnil(ErrRecursionDetected)
+
+//@ func (*Stack).computeScannerHash
+//@   tag C01
+//@   trusted
+//@   requires scanner != nil && scanner.file != nil
+//@   modifies nothing
+
+//@ func (*Stack).Push
+//@   tag C01 C08 C02
+//@   requires StackInv(s) && scanner != nil && scanner.file != nil && at <= len(scanner.file.content)
+//@   modifies s.uniqueFiles, s.stack, s.hashes, mapof(s.uniqueFiles)
+//@   ensures [C08] old(has(s.uniqueFiles, scanner.file.name)) ==> !isnil(ret) && s.stack == old(s.stack) && s.hashes == old(s.hashes)
+//@   ensures isnil(ret) ==> StackInv(s) && len(s.stack) == old(len(s.stack)) + 1 && s.stack[len(s.stack)-1].scanner == scanner && s.stack[len(s.stack)-1].at == at
+//@        && (forall k :: 0 <= k && k < old(len(s.stack)) ==> s.stack[k] == old(s.stack[k])) && has(s.uniqueFiles, scanner.file.name)
+
+//@ func (*Stack).Pop
+//@   tag C01 C08
+//@   requires StackInv(s)
+//@   modifies s.uniqueFiles, s.stack, s.hashes, mapof(s.uniqueFiles)
+//@   ensures StackInv(s)
+//@   ensures old(len(s.stack)) == 0 ==> ret == nil && len(s.stack) == 0
+//@   ensures old(len(s.stack)) > 0 ==> ret == old(s.stack[len(s.stack)-1].scanner) && seqprefix(s.stack, old(s.stack), old(len(s.stack)) - 1)
+
+//@ func NewJApiScanner
+//@   tag C01 C14
+//@   requires file != nil
+//@   modifies nothing
+//@   ghostensures ret.open == 0 && ret.lastEnd == 0 - 1
+//@   ensures fresh(ret) && NextInv(ret) && ret.file == file && ret.curIndex == 0 && ret.step == stateRoot
